@@ -53,12 +53,22 @@ def rule_default(ctx: Ctx, repo: Repo) -> None:
         ctx.check(PARAM not in sub.methods, "R-C06.1", sub.fq, "shipped configurations do not override the default limit",
                   construct=f"{sub.name}.{PARAM} overrides the default")
     # the CLI and trace() obtain the limit from the config
+    # (trace(): decided by interpretation under R-C06.2)
     gs = repo.fn("monkeytype.cli", "get_stub")
-    tr = repo.fn("monkeytype", "trace")
-    for fi in (gs, tr):
+    todo, seen, cs = [gs], set(), []
+    while todo:
+        fi = todo.pop()
+        if fi.fq in seen:
+            continue
+        seen.add(fi.fq)
         ctx.functions.add(fi.fq)
-        cs = [c for c in ast.walk(fi.node) if isinstance(c, ast.Call) and isinstance(c.func, ast.Attribute) and c.func.attr == PARAM]
-        ctx.check(len(cs) >= 1, "R-C06.1", fi.fq, "the limit used is config.max_typed_dict_size()", construct=f"{len(cs)} config reads")
+        for c in [c for c in ast.walk(fi.node) if isinstance(c, ast.Call)]:
+            if isinstance(c.func, ast.Attribute) and c.func.attr == PARAM:
+                cs.append(c)
+            callee = repo.resolve_callee(fi, c)
+            if callee is not None and callee.module is gs.module:
+                todo.append(callee)
+    ctx.check(len(cs) >= 1, "R-C06.1", gs.fq, "the limit used by stub generation is config.max_typed_dict_size()", construct=f"{len(cs)} config reads in get_stub and its helpers")
 
 
 def _ok_root(repo: Repo, caller: FunctionInfo, a: ast.AST, kind: str) -> Tuple[bool, str]:
